@@ -440,6 +440,9 @@ theorem fireSleeper_si (sl : Sleeper) : Pres (SI J) (fireSleeper sl) := SI.pres_
 theorem spawnAdopt_si (u wid : Nat) : Pres (SI J) (spawnAdopt u wid) :=
   fun s h => h.of_quiet (pidLeafX.spawnAdopt u wid s h.pid) (squiet_spawnAdopt u wid s h.pid)
 theorem emit_si (o : Obs) (ho : o.isReap = false) (hn : o.isNine = false) : Pres (SI J) (emit o) := (siLeafS0 J).emit o ho hn
+@[aesop safe apply (rule_sets := [Sg])]
+theorem xKill_si (pid sig : Nat) : Pres (SI J) (xKill pid sig) :=
+  SI.pres_quiet (squiet_xKill pid sig) (xKill_pres pidLeafW.toLeafK pid sig)
 theorem updK_si (f : Kernel → Kernel) (hf : ∀ k, KGMono k (f k)) (hn : ∀ k, KNMono k (f k)) (hs : ∀ k, KStep k (f k))
     (hd : ∀ k, k.PosK → KDMono k (f k)) : Pres (SI J) (updK f) :=
   SI.pres_quiet (squiet_updK f hf hn hs hd) (updK_pres pidLeafW.toLeafK f hs)
